@@ -1,5 +1,6 @@
 import Driver.Basic
 import OxyModel.Model.Stack
+import OxyModel.Model.Writer
 
 /-! Driver for the C20 protocol (see `harness/cmd/c20`): runs `Stack.serveStack` — the definition the C20 theorems are about. -/
 open Stack
@@ -180,4 +181,65 @@ def machine : Driver.Machine St where
 
 end DriverC20
 
-def main : IO Unit := Driver.run DriverC20.machine
+/-! `cfg pw depth=<d> base=<fh|f|h|->`: a nest of `utils.ProxyWriter`s over a recording writer (Model/Writer.lean); ops `wh <code>`,
+`w <b,b,…|->`, `flush`, `hijack`; every op prints what the caller observed, what the base writer has received so far and the
+`StatusCode()` / `GetLength()` of every ProxyWriter (outermost first). -/
+namespace DriverPW
+open Writer
+
+structure St where
+  base : Base
+  st : Writer.St
+
+def parseBytes (v : String) : Option (List Nat) :=
+  if v == "-" then some [] else (v.splitOn ",").mapM (·.toNat?)
+
+def showCall : Call → String
+  | .writeHeader c => s!"wh:{c}"
+  | .write b => s!"w:{b.length}:{b.foldl (· + ·) 0}"
+  | .flush => "fl"
+  | .hijack => "hj"
+
+def dash (l : List String) : String := if l.isEmpty then "-" else ",".intercalate l
+
+def render (s : St) (ok : Bool) : String :=
+  s!"r={if ok then 1 else 0} seen={dash (s.st.seen.map showCall)} sc={dash (s.st.pws.map fun p => toString p.statusCode)} len={dash (s.st.pws.map fun p => toString p.length)}"
+
+def init (f : List String) : St × String :=
+  let base : Option Base := match Driver.kv f "base" with
+    | some "fh" => some ⟨true, true⟩
+    | some "f" => some ⟨true, false⟩
+    | some "h" => some ⟨false, true⟩
+    | some "-" => some ⟨false, false⟩
+    | _ => none
+  match base, (Driver.kv f "depth").bind (·.toNat?) with
+  | some b, some d => if d ≤ 8 then (⟨b, fresh d⟩, "ok") else (⟨default, fresh 0⟩, "bad-cfg")
+  | _, _ => (⟨default, fresh 0⟩, "bad-cfg")
+
+def apply (s : St) (c : Call) : St × String :=
+  let r := s.st.step s.base c
+  let s' := { s with st := r.1 }
+  (s', render s' r.2)
+
+def step (s : St) : List String → St × String
+  | ["wh", c] => match c.toNat? with
+    | some k => apply s (.writeHeader k)
+    | none => (s, "bad-op")
+  | ["w", v] => match parseBytes v with
+    | some b => apply s (.write b)
+    | none => (s, "bad-op")
+  | ["flush"] => apply s .flush
+  | ["hijack"] => apply s .hijack
+  | _ => (s, "bad-op")
+
+end DriverPW
+
+def machine2 : Driver.Machine (Sum DriverC20.St DriverPW.St) where
+  init f :=
+    if f.getD 1 "" == "pw" then let r := DriverPW.init f; (.inr r.1, r.2)
+    else let r := DriverC20.init f; (.inl r.1, r.2)
+  step s f := match s with
+    | .inl a => let r := DriverC20.step a f; (.inl r.1, r.2)
+    | .inr b => let r := DriverPW.step b f; (.inr r.1, r.2)
+
+def main : IO Unit := Driver.run machine2
